@@ -12,7 +12,7 @@ class Universe:
     """A fixed set of live Task/WBS objects. States are encodings of their relation-typed
     ``__dict__`` entries by object index; no private field is named anywhere."""
 
-    def __init__(self, name, ids, n_wbs, names=None, links_only=False, ctor=False, alphabet='full'):
+    def __init__(self, name, ids, n_wbs, names=None, links_only=False, ctor=False, alphabet='full', twin=False):
         self.name = name
         self.ids = list(ids)
         self.n = len(ids)
@@ -27,11 +27,18 @@ class Universe:
         # attribute names that look like the library's own bookkeeping (parent_id, predecessor_ids, *_id) are ordinary
         # custom attributes and must be treated as such
         self.extra = [dict(parent_id='p%d' % i, predecessor_ids='q%d' % i, ticket_id='T-%d' % i) for i in range(self.n)]
-        self.tasks = [Task(ids[i], name=names[i], tag='t%d' % i, mix=self.mix[i], **self.extra[i]) for i in range(self.n)]
+        # twin: the second half of the tasks are look-alikes of the first half (same id, name and custom attribute values) and the
+        # WBSs carry equal attributes - two plans made from one template, equal by value and distinct as objects
+        self.twin = twin
+        h = max(1, self.n // 2)
+        if twin:
+            self.mix = [self.mix[i % h] for i in range(self.n)]
+            self.extra = [self.extra[i % h] for i in range(self.n)]
+        self.tasks = [Task(ids[i], name=names[i], tag='t%d' % (i % h if twin else i), mix=self.mix[i], **self.extra[i]) for i in range(self.n)]
         self.wbs = []
         for k in range(n_wbs):
             w = WBS()
-            w.title = 'W%d' % k
+            w.title = 'W' if twin else 'W%d' % k
             self.wbs.append(w)
         self.hroots = []
         for w in self.wbs:
